@@ -24,6 +24,8 @@ import vlib
 
 PID = "C19"
 PKG = "yv-c19"
+# TLC workers / harness processes run side by side (lower it on a busy machine)
+WORKERS = max(1, int(os.environ.get("VERIF_C19_WORKERS", "8")))
 
 # theme -> (MaxFd, MaxH quick, MaxH thorough) as written in spec/MC_Kernel_<theme>_<tier>.cfg;
 # sequences are up to MaxH + 1 calls long
@@ -77,11 +79,23 @@ def _via(prefix):
     return via
 
 
-def classify(sys_, call, target, exp, obs, via, last_main=None):
+def classify(sys_, call, target, exp, obs, via, last_main=None, main_target=""):
     """Names the shape of a deviating case (call + history), so that known
     findings can be keyed by it.  "" = no recognised shape."""
     op = call["op"]
     e, o = _fmt(exp), _fmt(obs)
+    # a signal sent by the parent to a child that has terminated: `target` is
+    # what had become of the child when kill was called (Kernel!TargetOf)
+    if op == "killkid" and target in ("exited", "signaled") and e == "ok":
+        return "signal-to-zombie"
+    if op == "killkid" and target == "reaped" and e == "err:ESRCH" and o == "ok":
+        return "signal-to-reaped-child"
+    # ... and what wait reports right after it (the observation after the call)
+    if target == "post" and op == "wait" and last_main is not None and last_main["op"] == "killkid":
+        if main_target in ("exited", "signaled") and e == main_target and o == "signaled":
+            return "signal-to-zombie"
+        if main_target == "reaped" and e == "err:ECHILD" and o == "signaled":
+            return "signal-to-reaped-child"
     if "path" in call and call["path"] == [] and e == "err:ENOENT":
         return "empty-path"
     if "path" in call and _has_symlink(call):
@@ -120,7 +134,7 @@ def classify(sys_, call, target, exp, obs, via, last_main=None):
     return ""
 
 
-def call_key(sys_, call, target, exp, obs, prefix):
+def call_key(sys_, call, target, exp, obs, prefix, main_target=""):
     via = _via(prefix)
     # the call under test when `call` is one of the observation calls after it
     def observation(c):
@@ -130,11 +144,11 @@ def call_key(sys_, call, target, exp, obs, prefix):
     main = [c for c in prefix if not observation(c)]
     last_main = main[-1] if main else None
     if call["op"] == "kid":
-        key = call_key(sys_, call["c"], target, exp, obs, prefix)
+        key = call_key(sys_, call["c"], target, exp, obs, prefix, main_target)
         key["in"] = "child"
         return key
     key = {"level": "call", "sys": sys_, "call": call["op"], "target": TARGET.get(target, target),
-           "exp": _fmt(exp), "obs": _fmt(obs), "shape": classify(sys_, call, target, exp, obs, via, last_main)}
+           "exp": _fmt(exp), "obs": _fmt(obs), "shape": classify(sys_, call, target, exp, obs, via, last_main, main_target)}
     if call["op"] == "open":
         key["access"] = {"R": "read", "W": "write", "RW": "readwrite"}.get(call.get("acc"), "?")
     return key
@@ -172,7 +186,12 @@ def part_a_replay(tier, wd, agg, cov, header_holder):
         maxh = hq if tier == "quick" else ht
         cfg = f"MC_Kernel_{theme}_{tier}.cfg"       # holds MaxFd = maxfd, MaxH = maxh
         fan = os.path.join(wd, f"fan_{theme}.ndjson")
-        r = vlib.tlc("Kernel", cfg, workers=8, json_out=fan, timeout=1500)
+        # With several workers TLC's breadth-first search is not strictly level by
+        # level: a state is now and then first reached by a history of MaxH + 1
+        # calls although a shorter one exists, and is then neither printed nor
+        # extended (the number of cases varies from run to run).  The two small
+        # fork themes run with one worker: the same cases in every run.
+        r = vlib.tlc("Kernel", cfg, workers=1 if theme in ("fork", "forkfd") else WORKERS, json_out=fan, timeout=1500)
         vlib.tlc_must_pass(r, f"model check {cfg}")
         vlib.log(f"[tlc] {cfg}: {r.distinct} distinct states, {r.generated} generated, depth {r.depth}, {r.wall:.1f}s")
         cov["states"] += r.distinct
@@ -211,7 +230,7 @@ def part_a_replay(tier, wd, agg, cov, header_holder):
             return out
 
         vlib.build_harness(PKG)
-        with ThreadPoolExecutor(max_workers=shards) as ex:
+        with ThreadPoolExecutor(max_workers=min(shards, WORKERS)) as ex:
             reports = list(ex.map(one, range(shards)))
         tstats = {"states_emitted": n}
         for rp in reports:
@@ -225,7 +244,7 @@ def part_a_replay(tier, wd, agg, cov, header_holder):
                         cov["per_result"][rk] = cov["per_result"].get(rk, 0) + c
                 elif v["kind"] == "mismatch":
                     seq = v["seq"]
-                    key = call_key(v["sys"], v["call"], v["t"], v["exp"], v["obs"], seq[:-1])
+                    key = call_key(v["sys"], v["call"], v["t"], v["exp"], v["obs"], seq[:-1], v.get("mt", ""))
                     agg.add(key, f"{v['sys']} system: result of {v['call']['op']} deviates from Kernel.tla",
                             {"level": "call", "tree": header_holder["tree"], "seq": seq, "sys": v["sys"],
                              "exp": v["exp"], "obs": v["obs"]})
@@ -347,6 +366,10 @@ _SHAPES = [
     ("symlink-in-path", re.compile(r'[<>]\s*(l|ld|lx)(/\S*)?(\s|$|\))')),
     ("creat-missing-parent", re.compile(r'>\s*n/x')),
     ("open-directory-for-writing", re.compile(r'>\s*d(\s|$|\))')),
+    # a signal sent to an asynchronous command the script has already waited for
+    ("signal-to-reaped-child", re.compile(r'wait \$!; kill -s \w+ \$!')),
+    # a writer and a reader in two processes meeting at the FIFO
+    ("fifo-meeting", re.compile(r'> p & cat < p')),
 ]
 _FORKS = re.compile(r'^\(|\||\$\(|&')
 
@@ -354,7 +377,8 @@ _FORKS = re.compile(r'^\(|\||\$\(|&')
 def script_shapes(steps):
     """The recognised shapes among the steps of a script, in order of first
     occurrence: a redirection to the empty name / through a symbolic link /
-    into a missing directory / to a directory, a step that forks after the
+    into a missing directory / to a directory, a signal sent to a child that
+    has been waited for, two processes meeting at the FIFO, a step that forks after the
     shell changed its working directory or umask (or that prints the umask in
     a child), a step that names a descriptor number after a pathname
     expansion."""
@@ -390,7 +414,7 @@ def part_b(tier, wd, agg, cov):
     maxh, every = (1, 1) if tier == "quick" else (2, 4)
     cfg = f"MC_KernelScript_{tier}.cfg"            # holds MaxH = maxh
     fan = os.path.join(wd, "scripts.ndjson")
-    r = vlib.tlc("KernelScript", cfg, workers=8, json_out=fan, timeout=1500)
+    r = vlib.tlc("KernelScript", cfg, workers=WORKERS, json_out=fan, timeout=1500)
     vlib.tlc_must_pass(r, f"model check {cfg}")
     vlib.log(f"[tlc] {cfg}: {r.distinct} distinct states, {r.generated} generated, depth {r.depth}, {r.wall:.1f}s")
     cov["states"] += r.distinct
@@ -425,7 +449,8 @@ def part_b(tier, wd, agg, cov):
         os.remove(inp)
         return out
 
-    with ThreadPoolExecutor(max_workers=shards) as ex:
+    vlib.build_harness(PKG)
+    with ThreadPoolExecutor(max_workers=min(shards, WORKERS)) as ex:
         reports = list(ex.map(one, range(shards)))
     st = {"scripts": 0, "unpredicted": 0, "deviating": 0, "abandoned": 0}
     for rp in reports:
@@ -446,6 +471,9 @@ def part_b(tier, wd, agg, cov):
                 if not shapes:
                     key["step"] = v["steps"][-1]
                     key["fields"] = ",".join(sorted({f for d in dev.values() for f in (d if isinstance(d, (list, dict)) else [str(d)])}))
+                elif {"signal-to-reaped-child", "fifo-meeting"} & set(shapes):
+                    # which observations deviate (a finding of this shape is keyed by them)
+                    key["fields"] = ",".join(sorted({f for d in dev.values() if isinstance(d, list) for f in d}))
                 agg.add(key, f"script behaves differently ({who}): {' ; '.join(v['steps'])}",
                         {"level": "script", "tree": header["tree"], "steps": v["steps"], "pred": v["pred"], "dev": dev,
                          "sim": v["sim"], "real": v["real"]})
@@ -478,7 +506,7 @@ def run(tier):
     rc = rep.finish()
     ops_all = ["open", "close", "dup", "dup2", "pipe", "tmp", "read", "write", "lseek", "getfd", "setfd", "access",
                "setnb", "fstat", "statat", "umask", "chdir", "getcwd", "opendir", "sigaction", "getsigaction",
-               "sigmask", "kill", "caught", "setrlimit", "getrlimit", "pending", "fork", "kid", "wait"]
+               "sigmask", "kill", "caught", "setrlimit", "getrlimit", "pending", "fork", "kid", "wait", "killkid"]
     vlib.write_evidence(PID, tier, {
         "states": cov["states"],
         "transitions": cov["transitions"],
